@@ -221,8 +221,13 @@ def run_pair(harness_bin, ops_lines, workdir):
     oracle = []
     for l in open(os.path.join(workdir, "oracle.txt")).read().split("\n"):
         if l:
-            c, ln, prop, what = l.split("\t", 3)
-            oracle.append((int(c), int(ln), prop, what))
+            parts = l.split("\t", 3)
+            if len(parts) == 4 and parts[0].lstrip("-").isdigit() and parts[1].isdigit():
+                oracle.append((int(parts[0]), int(parts[1]), parts[2], parts[3]))
+            elif oracle:
+                # continuation of a message that contained a line break
+                c, ln, prop, what = oracle[-1]
+                oracle[-1] = (c, ln, prop, what + " " + l.strip())
     dist = json.load(open(os.path.join(workdir, "dist.json")))
     return dict(impl=impl, model=model, oracle=oracle, dist=dist), None
 
@@ -417,7 +422,10 @@ def conc_run(prop, harness_bin, flavor, gen, seed, tier, tag):
     by_case = {}
     for l in open(os.path.join(workdir, "oracle.txt")).read().split("\n"):
         if l:
-            cnum, ln, pr, w = l.split("\t", 3)
+            parts = l.split("\t", 3)
+            if len(parts) != 4 or not parts[0].isdigit() or not parts[1].isdigit():
+                continue
+            cnum, ln, pr, w = parts
             by_case.setdefault((int(cnum), pr), []).append((int(ln), w))
     written = {}
     for (cnum, pr), items in by_case.items():
